@@ -65,8 +65,26 @@ DISABLED = {
 }
 
 
+# muscle activation dynamics (real arithmetic): the activation moves toward the clamped control, whatever the timescale
+MUSCLE_DYN = {
+    'params': {'prm': {'n': 3}},
+    'requires': {'positive_time_constants': 'prm[0] > 0 and prm[1] > 0'},
+    'assigns': [], 'no_error': True,
+    'defs': {'CC': '(0 if ctrl < 0 else (1 if ctrl > 1 else ctrl))'},
+    'ensures': {'rises_when_below_the_clamped_control': 'implies(act < CC, result > 0)',
+                'falls_when_above_the_clamped_control': 'implies(act > CC, result < 0)',
+                'rests_at_the_clamped_control': 'implies(act == CC, result == 0)'},
+}
+SIGMOID = {'requires': {}, 'assigns': [], 'pure': True, 'assumed': True,
+           'ensures': {'in_unit_interval': 'result >= 0 and result <= 1'}}       # mju_sigmoid: a smooth step with values in [0,1] (assumed here)
+
+
 def contracts():
     return {'__defs__': DEFS, 'mju_clip': CLIP, 'mju_min': MIN, 'mju_max': MAX}
+
+
+def muscle_contracts():
+    return {'__defs__': {}, '__auto_inline__': True, 'mju_muscleDynamics': MUSCLE_DYN, 'mju_sigmoid': SIGMOID}
 
 
 CONTRACTS = contracts()
